@@ -34,6 +34,76 @@ type unitsInfo struct {
 	c        *core.Ctx
 	retCount map[*ssa.Function]bool
 	byteFld  map[*types.Var]bool
+	// runeFld: fields that carry character positions somewhere (see runeFields). A field in both sets is
+	// unit-polymorphic (seqFunVars.end: an element position of whatever sequence type the worker handles) and
+	// is judged by its role in the function at hand.
+	runeFld map[*types.Var]bool
+}
+
+// localRole: how the function uses field f: as a position in bytes, in characters, or neither.
+func localRole(fn *ssa.Function, f *types.Var) (byteRole, runeRole bool) {
+	byteIdx, runeIdx := map[ssa.Value]bool{}, map[ssa.Value]bool{}
+	note := func(t types.Type, vs ...ssa.Value) {
+		for _, v := range vs {
+			if v == nil {
+				continue
+			}
+			if isRuneSlice(t) {
+				runeIdx[v] = true
+			} else if isBytesOrString(t) {
+				byteIdx[v] = true
+			}
+		}
+	}
+	for _, b := range fn.Blocks {
+		for _, in := range b.Instrs {
+			switch x := in.(type) {
+			case *ssa.IndexAddr:
+				note(x.X.Type(), x.Index)
+			case *ssa.Index:
+				note(x.X.Type(), x.Index)
+			case *ssa.Lookup:
+				note(x.X.Type(), x.Index)
+			case *ssa.Slice:
+				note(x.X.Type(), x.Low, x.High)
+			}
+		}
+	}
+	isF := func(v ssa.Value) bool { return loadedField(v) == f }
+	for v := range byteIdx {
+		if isF(v) {
+			byteRole = true
+		}
+	}
+	for v := range runeIdx {
+		if isF(v) {
+			runeRole = true
+		}
+	}
+	for _, b := range fn.Blocks {
+		for _, in := range b.Instrs {
+			bo, ok := in.(*ssa.BinOp)
+			if !ok {
+				continue
+			}
+			switch bo.Op {
+			case token.LSS, token.LEQ, token.GTR, token.GEQ:
+			default:
+				continue
+			}
+			for _, pr := range [][2]ssa.Value{{bo.X, bo.Y}, {bo.Y, bo.X}} {
+				if isF(pr[0]) {
+					if byteIdx[pr[1]] {
+						byteRole = true
+					}
+					if runeIdx[pr[1]] {
+						runeRole = true
+					}
+				}
+			}
+		}
+	}
+	return
 }
 
 func isBytesOrString(t types.Type) bool {
@@ -154,6 +224,7 @@ func loadedField(v ssa.Value) *types.Var {
 func newUnits(c *core.Ctx) *unitsInfo {
 	u := &unitsInfo{c: c, retCount: map[*ssa.Function]bool{}, byteFld: map[*types.Var]bool{}}
 	fns := c.ModuleFuncs()
+	_, u.runeFld = runeFields(fns)
 	// functions that return a character count
 	for round := 0; round < 3; round++ {
 		for _, fn := range fns {
@@ -273,6 +344,11 @@ func (u *unitsInfo) sites(scope func(*ssa.Function) bool) []unitSite {
 				case *ssa.Store:
 					if f := fieldOfAddr(x.Addr); f != nil && u.byteFld[f] {
 						bad := u.isRuneCount(x.Val, 0)
+						if bad && u.runeFld[f] {
+							// unit-polymorphic field: judged by its role in this function
+							byteRole, _ := localRole(fn, f)
+							bad = byteRole
+						}
 						add(x.Pos(), "store into byte-offset field "+f.Name(), "store "+f.Name(), bad, "a character count is stored into "+f.Name()+", which holds a byte offset")
 					}
 				case *ssa.IndexAddr:
@@ -364,10 +440,9 @@ func isStringLen(v ssa.Value, depth int) bool {
 	return false
 }
 
-func runRuneUnits(c *core.Ctx, r *core.Reporter, rule string, floor int) {
-	r.Rule(rule, "a byte length is not a character position: the length of a string value (len(s)) never bounds an index into a []rune - not as the index or slice bound itself, not in a comparison with a value that indexes a []rune, and not through a struct field that carries character positions (a field whose value indexes a []rune or is compared with such an index, found by use)", floor)
-	fns := c.ModuleFuncs()
-	// values that index a []rune, per function; fields that carry character positions
+// runeFields: the values that index a []rune and the struct fields that carry character positions (their
+// value indexes a []rune or is compared with such an index).
+func runeFields(fns []*ssa.Function) (map[ssa.Value]bool, map[*types.Var]bool) {
 	runeIdx := map[ssa.Value]bool{}
 	runeFld := map[*types.Var]bool{}
 	noteIdx := func(v ssa.Value) {
@@ -400,7 +475,6 @@ func runRuneUnits(c *core.Ctx, r *core.Reporter, rule string, floor int) {
 			}
 		}
 	}
-	// fields compared with a rune index are character positions too
 	for round := 0; round < 2; round++ {
 		for _, fn := range fns {
 			for _, b := range fn.Blocks {
@@ -425,6 +499,14 @@ func runRuneUnits(c *core.Ctx, r *core.Reporter, rule string, floor int) {
 			}
 		}
 	}
+	return runeIdx, runeFld
+}
+
+func runRuneUnits(c *core.Ctx, r *core.Reporter, rule string, floor int) {
+	r.Rule(rule, "a byte length is not a character position: the length of a string value (len(s)) never bounds an index into a []rune - not as the index or slice bound itself, not in a comparison with a value that indexes a []rune, and not through a struct field that carries character positions (a field whose value indexes a []rune or is compared with such an index, found by use)", floor)
+	fns := c.ModuleFuncs()
+	runeIdx, runeFld := runeFields(fns)
+	bu := newUnits(c)
 	var names []string
 	for f := range runeFld {
 		names = append(names, f.Name())
@@ -453,7 +535,12 @@ func runRuneUnits(c *core.Ctx, r *core.Reporter, rule string, floor int) {
 				switch x := in.(type) {
 				case *ssa.Store:
 					if f := fieldOfAddr(x.Addr); f != nil && runeFld[f] {
-						emit("store "+f.Name(), x.Pos(), isStringLen(x.Val, 0), "the byte length of a string is stored into "+f.Name()+", which carries a character position (it bounds an index into a []rune): non-ASCII text indexes past the end")
+						bad := isStringLen(x.Val, 0)
+						if bad && bu.byteFld[f] {
+							_, runeRole := localRole(fn, f)
+							bad = runeRole
+						}
+						emit("store "+f.Name(), x.Pos(), bad, "the byte length of a string is stored into "+f.Name()+", which carries a character position (it bounds an index into a []rune): non-ASCII text indexes past the end")
 					}
 				case *ssa.IndexAddr:
 					if isRuneSlice(x.X.Type()) {
